@@ -19,18 +19,31 @@ Local Open Scope N_scope.
 Definition vden3 (rows : list bval) (TF : list ste) (v : velt) : bytes :=
   match v with VRef off => ref_str TF off | _ => vden rows v end.
 
-Definition av_ok3 (rows : list bval) (TF : list ste) (v : velt) : bool :=
-  match v with VRef off => has_off TF off | _ => av_ok rows v end.
+(* a reference is good when it is the offset of an entry of TF made of octets 1..255 (only such entries resolve to their
+   string on the table written; an entry with a NUL — a byte array of a binary-flagged element that occurs twice — is never
+   referenced from a C string, see find_name_okb) *)
+Definition has_ok (TF : list ste) (off : N) : bool := existsb (fun x => (s_off x =? off) && okb (s_str x)) TF.
 
-Lemma split_sweep_av3 rows TF find mk : av_ok3 rows TF mk = true ->
+Definition av_ok3 (rows : list bval) (TF : list ste) (v : velt) : bool :=
+  match v with VRef off => has_ok TF off | _ => av_ok rows v end.
+
+Lemma find_name_okb nm s i m : okb s = true -> find_name nm s = Some (i, m) -> okb nm = true.
+Proof.
+  intros Hs. unfold find_name. destruct nm as [|c nm'] eqn:N; [reflexivity|]. rewrite <- N.
+  destruct (find_sub nm s) as [k|] eqn:F; [|discriminate]. intros _.
+  destruct (find_sub_spec nm s k F) as [Hp _]. destruct (is_prefix_firstn _ _ Hp) as [Hf _].
+  rewrite <- Hf. apply okb_firstn. now apply okb_skipn.
+Qed.
+
+Lemma split_sweep_av3 rows TF find mk : (forall s i m, okb s = true -> find s = Some (i, m) -> av_ok3 rows TF mk = true) ->
   forall fuel l l', split_sweep fuel find mk l = Some l' -> forallb (av_ok3 rows TF) l = true -> forallb (av_ok3 rows TF) l' = true.
 Proof.
-  intros Hm. induction fuel as [|f IH]; intros l l'; cbn [split_sweep]; [discriminate|].
+  intros Hm0. induction fuel as [|f IH]; intros l l'; cbn [split_sweep]; [discriminate|].
   destruct l as [|v r]; [intros H; now injection H as <-|].
   destruct v as [s|t|p t|off]; cbn [forallb].
-  - destruct (find s) as [[idx mlen]|].
+  - destruct (find s) as [[idx mlen]|] eqn:Fd.
     + destruct (split_sweep f find mk _) as [r'|] eqn:Sx; [|discriminate]. intros H Hl; injection H as <-.
-      apply andb_true_iff in Hl as [Hs Hr]. cbn [av_ok3 av_ok] in Hs.
+      apply andb_true_iff in Hl as [Hs Hr]. cbn [av_ok3 av_ok] in Hs. pose proof (Hm0 s idx mlen Hs Fd) as Hm.
       cbn [forallb]. rewrite Hm. cbn [av_ok3 av_ok]. rewrite (okb_firstn _ _ Hs). cbn [andb]. apply (IH _ _ Sx).
       destruct (idx + mlen <? len s); cbn [forallb av_ok3 av_ok]; [rewrite (okb_skipn _ _ Hs)|]; exact Hr.
     + destruct (split_sweep f find mk r) as [r'|] eqn:Sx; [|discriminate]. intros H Hl; injection H as <-.
@@ -48,7 +61,7 @@ Proof.
   induction sub as [|r rest IH]; intros Hin l l'; cbn [pass_vals]; [intros H; now injection H as <-|].
   unfold sweep. destruct (split_sweep _ _ _ l) as [l1|] eqn:Sx; [|discriminate]. intros H Hl.
   apply (IH (fun y Hy => Hin y (or_intror Hy)) _ _ H). eapply split_sweep_av3; [|exact Sx|exact Hl].
-  cbn [av_ok3 av_ok]. apply existsb_exists. exists r. split; [apply Hin; now left|now rewrite !N.eqb_refl].
+  intros _ _ _ _ _. cbn [av_ok3 av_ok]. apply existsb_exists. exists r. split; [apply Hin; now left|now rewrite !N.eqb_refl].
 Qed.
 
 Lemma pass_strtbl_av3 rows TF sub : (forall x, In x sub -> In x TF) ->
@@ -57,7 +70,8 @@ Proof.
   induction sub as [|x rest IH]; intros Hin l l'; cbn [pass_strtbl]; [intros H; now injection H as <-|].
   unfold sweep. destruct (split_sweep _ _ _ l) as [l1|] eqn:Sx; [|discriminate]. intros H Hl.
   apply (IH (fun y Hy => Hin y (or_intror Hy)) _ _ H). eapply split_sweep_av3; [|exact Sx|exact Hl].
-  cbn [av_ok3]. unfold has_off. apply existsb_exists. exists x. split; [apply Hin; now left|apply N.eqb_refl].
+  intros s i m Hs Hf. cbn [av_ok3]. unfold has_ok. apply existsb_exists. exists x. split; [apply Hin; now left|].
+  now rewrite N.eqb_refl, (find_name_okb _ _ _ _ Hs Hf).
 Qed.
 
 Lemma split_value_ok3 e st TF ia buf l :
@@ -149,7 +163,7 @@ Section D3.
   Hypothesis Hopts : e_ignore_empty e = e_remove_blanks e.
   Variable TF : list ste.
   Variable tb : bytes.
-  Hypothesis HRES : forall x, In x TF -> S.str_at tb (s_off x) = Some (s_str x).
+  Hypothesis HRES : forall x, In x TF -> okb (s_str x) = true -> S.str_at tb (s_off x) = Some (s_str x).
   Hypothesis HU32 : forall x, In x TF -> S.u32_okb (s_off x) = true.
   Hypothesis HREF : forall x, In x TF -> ref_str TF (s_off x) = s_str x.
 
@@ -161,11 +175,12 @@ Section D3.
   Lemma sub_same st st' : same_tbl st st' -> sub st' -> sub st.
   Proof. intros [H _] Hs y Hy. apply Hs. now rewrite H. Qed.
 
-  Lemma den_ref sp par off (dst : S.dstate) : has_off TF off = true ->
+  Lemma den_ref sp par off (dst : S.dstate) : has_ok TF off = true ->
     S.den_str (S.mk_denv L tb) sp par (S.WStrT off) dst = Some (ref_str TF off, dst).
   Proof.
-    intros H. unfold has_off in H. apply existsb_exists in H as (x & Hin & Hx). apply N.eqb_eq in Hx. subst off.
-    cbn [S.den_str S.de_strtbl]. now rewrite (HU32 x Hin), (HRES x Hin), (HREF x Hin).
+    intros H. unfold has_ok in H. apply existsb_exists in H as (x & Hin & Hx). apply andb_true_iff in Hx as [Hx Hok].
+    apply N.eqb_eq in Hx. subst off.
+    cbn [S.den_str S.de_strtbl]. now rewrite (HU32 x Hin), (HRES x Hin Hok), (HREF x Hin).
   Qed.
 
   Lemma den_velts3 l : forall (st : est) (dst : S.dstate),
@@ -240,11 +255,12 @@ Section D3.
 
   Lemma den_one_attr3 st a w st' (dst : S.dstate) :
     sub st' -> attr_ok3 L a = true -> S.ds_attrcp dst = attrcp st ->
+    (match at_name a with AttrTok p t _ _ => S.is_datetime_attr (l_id L) p t = false | AttrLit _ => True end) ->
     abs_attr e st a = Some (w, st') ->
     exists dst', S.den_attr (S.mk_denv L tb) w dst = Some (fst (attr_event a), at_value a, dst') /\ S.ds_attrcp dst' = attrcp st' /\
                  S.ds_tagcp dst' = S.ds_tagcp dst /\ S.ds_cur dst' = S.ds_cur dst.
   Proof.
-    intros Hsub Hok Hcp. unfold attr_ok3 in Hok. apply andb_true_iff in Hok as [Hval Hok].
+    intros Hsub Hok Hcp Hnd. unfold attr_ok3 in Hok. apply andb_true_iff in Hok as [Hval Hok].
     unfold abs_attr, abs_attr_start, attr_event. cbv zeta. rewrite (okb_cstr _ Hval).
     destruct (at_name a) as [p t nm oval|nm]; cbn [fst].
     - (* token start *)
@@ -267,7 +283,7 @@ Section D3.
       destruct START as (dst1 & DS & A1 & B1 & C1).
       assert (FIN : forall v dst2, S.den_attr_raw (S.mk_denv L tb) w dst = Some (P.AttrTok p t nm, v, dst2) ->
                     S.den_attr (S.mk_denv L tb) w dst = Some (P.AttrTok p t nm, v, dst2)).
-      { intros v dst2 R. unfold S.den_attr. rewrite R. destruct v; [reflexivity|]. cbn [S.de_lang]. now rewrite (not_datetime L e HE HP). }
+      { intros v dst2 R. unfold S.den_attr. rewrite R. destruct v; [reflexivity|]. cbn [S.de_lang]. now rewrite Hnd. }
       destruct (a_value r) as [rv|] eqn:RV; destruct oval as [xv|]; try discriminate.
       + apply andb_true_iff in Hvv as [Hxv Hpre]. apply beq_eq in Hxv. rewrite Hpre.
         pose proof (is_prefix_split xv _ Hpre) as Hsplit.
@@ -304,7 +320,8 @@ Section D3.
       destruct (den_value3 st1 _ w0 st2 dst Hs1 Hval Hcp AV) as (dst2 & DV & A2 & B2 & C2).
       exists dst2. split; [|auto].
       unfold S.den_attr, S.den_attr_raw. cbn [S.wa_start S.wa_vals S.den_astart S.de_strtbl].
-      rewrite <- Hoff, (HU32 x HxT), (HRES x HxT), Hstr, DV. reflexivity.
+      assert (Hxo : okb (s_str x) = true) by (rewrite Hstr; exact Hnm).
+      rewrite <- Hoff, (HU32 x HxT), (HRES x HxT Hxo), Hstr, DV. reflexivity.
   Qed.
 
   Lemma den_all_attrs3 l : forall st ws st' (dst : S.dstate),
@@ -319,7 +336,9 @@ Section D3.
       destruct (abs_attr e st a) as [[w st1]|] eqn:A; [|discriminate].
       destruct (abs_attrs e st1 r) as [[ws' st2]|] eqn:R; [|discriminate]. intros E; injection E as <- <-.
       assert (Hs1 : sub st1) by (apply (sub_ext _ _ (proj1 (abs_attrs_sx _ _ _ _ _ R))); exact Hs).
-      destruct (den_one_attr3 st a w st1 dst Hs1 Ha Hcp A) as (dst1 & D1' & A1 & B1 & C1).
+      assert (Hnd : match at_name a with AttrTok p t _ _ => S.is_datetime_attr (l_id L) p t = false | AttrLit _ => True end)
+        by (destruct (at_name a); [apply (not_datetime L e HE HP)|exact I]).
+      destruct (den_one_attr3 st a w st1 dst Hs1 Ha Hcp Hnd A) as (dst1 & D1' & A1 & B1 & C1).
       destruct (IH st1 ws' st2 dst1 Hs Hr A1 R) as (dst2 & D2' & A2 & B2 & C2).
       exists dst2. cbn [S.den_attrs]. rewrite D1', D2'. unfold attr_event at 1. cbn [fst].
       repeat split; congruence.
@@ -400,7 +419,7 @@ Section D3.
   Lemma tag_den3 st tag ha hc sw wtag st1 (dst : S.dstate) :
     match tag with
     | TagTok p t o nm =>
-      (5 <=? t) && (t <? 64) && (N.land o 1 =? 0) && (p <? 256) &&
+      (5 <=? t) && (t <? 64) && (p <? 256) &&
       match S.lookup_tag L p t with
       | Some r => (t_page r =? p) && (t_tok r =? t) && beq (P.B (t_name r)) nm
       | None => false
@@ -441,7 +460,8 @@ Section D3.
       intros E; injection E as <- <- <-. split; [reflexivity|].
       assert (HxT : In x TF) by (apply Hsub; cbn; exact Hin).
       eexists _, _. split.
-      + unfold named_of. cbn [S.de_strtbl S.apply_sw]. rewrite <- Hoff, (HU32 x HxT), (HRES x HxT), Hstr. reflexivity.
+      + assert (Hxo : okb (s_str x) = true) by (rewrite Hstr; exact Hnm).
+        unfold named_of. cbn [S.de_strtbl S.apply_sw]. rewrite <- Hoff, (HU32 x HxT), (HRES x HxT Hxo), Hstr. reflexivity.
       + cbn. auto.
   Qed.
 
@@ -488,7 +508,18 @@ Section D3.
       assert (Hs2 : sub st2) by (exact (sub_ext _ _ (abs_seq_ext _ _ _ _ _ _ AS) Hs3)).
       assert (Hs1 : sub st1).
       { destruct (has_attr_table e); [exact (sub_ext _ _ (proj1 (abs_attrs_sx _ _ _ _ _ AA)) Hs2)|injection AA as _ <-; exact Hs2]. }
-      destruct (tag_den3 st tag _ _ sw wtag st1 dst Htag Hs1 H1 H2 AT) as (Hsw & me1 & dst0 & NM & R1 & R2).
+      assert (Htag' : match tag with
+                      | TagTok p t o nm => (5 <=? t) && (t <? 64) && (p <? 256) &&
+                          match S.lookup_tag L p t with
+                          | Some r => (t_page r =? p) && (t_tok r =? t) && beq (P.B (t_name r)) nm
+                          | None => false
+                          end
+                      | TagLit nm => okb nm && unknown_tag L nm
+                      end = true).
+      { destruct tag as [p t o nm|nm]; [|exact Htag].
+        repeat (apply andb_true_iff in Htag; destruct Htag as [Htag ?]).
+        repeat (apply andb_true_iff; split); assumption. }
+      destruct (tag_den3 st tag _ _ sw wtag st1 dst Htag' Hs1 H1 H2 AT) as (Hsw & me1 & dst0 & NM & R1 & R2).
       assert (ATT : exists dst2, S.den_attrs (S.mk_denv L tb) ws dst0 = Some (if (has_attr_table e) then map attr_event attrs else [], dst2) /\
                      S.ds_attrcp dst2 = attrcp st2 /\ S.ds_tagcp dst2 = tagcp st2).
       { destruct (has_attr_table e).
@@ -535,12 +566,44 @@ Proof.
     apply andb_true_iff in Hch as [H1 H2]. now rewrite (Hx _ H1), IHr.
 Qed.
 
+(* the document around a root element that denotes evs *)
+Lemma doc_wrap TBL L (e : env) st' sw wtag ws hc its evs dst' :
+  D1.den_items (S.mk_denv L (doc_strtbl e st')) 0 None [S.WItemElt sw wtag ws hc its] (S.mk_dstate 0 0 None) = Some (evs, dst') ->
+  e_version e < 4 -> header_public_id e < 4294967296 -> header_public_id e <> 0 ->
+  S.bytes_okb (doc_strtbl e st') = true -> Parser.blen (doc_strtbl e st') < 4294967296 ->
+  final_idx e st' < 4294967296 ->
+  S.denote_with TBL (Some L) (abs_doc2 e st' (S.WItemElt sw wtag ws hc its)) = Some (P.EvStartDoc 106 (l_id L) :: evs ++ [P.EvEndDoc]).
+Proof.
+  intros DN Hv Hp1 Hp0 Hb1 Hb2 Hidx. set (root := S.WItemElt sw wtag ws hc its) in *.
+  unfold S.denote_with.
+  assert (F : S.wd_ver (abs_doc2 e st' root) = u8 (e_version e) /\ S.wd_strtbl (abs_doc2 e st' root) = doc_strtbl e st' /\
+              S.wd_charset (abs_doc2 e st' root) = (if e_version e =? 0 then None else Some 106) /\
+              S.wd_root (abs_doc2 e st' root) = root /\ S.wd_pis_before (abs_doc2 e st' root) = [] /\ S.wd_pis_after (abs_doc2 e st' root) = [] /\
+              S.wd_pub (abs_doc2 e st' root) = (match header_pid e with Some _ => S.PubIdx (final_idx e st') | None => S.PubNum (header_public_id e) end)).
+  { unfold abs_doc2, final_idx. destruct (header_table e st') as [[i t] tl]. cbn. auto 10. }
+  destruct F as (F1 & F2 & F3 & F4 & F5 & F6 & F7). rewrite F1, F2, F7.
+  assert (Hu8 : u8 (e_version e) = e_version e) by (unfold u8; apply N.mod_small; lia). rewrite Hu8.
+  replace (e_version e <? 4) with true by (symmetry; now apply N.ltb_lt).
+  rewrite Hb1. replace (S.u32_okb (Parser.blen (doc_strtbl e st'))) with true by (symmetry; unfold S.u32_okb; now apply N.ltb_lt).
+  assert (Hpub : match (match header_pid e with Some _ => S.PubIdx (final_idx e st') | None => S.PubNum (header_public_id e) end) with
+                 | S.PubNum n => S.u32_okb n && negb (n =? 0) | S.PubIdx i => S.u32_okb i end = true).
+  { destruct (header_pid e); [unfold S.u32_okb; now apply N.ltb_lt|]. unfold S.u32_okb. apply andb_true_iff. split; [now apply N.ltb_lt|].
+    apply negb_true_iff. now apply N.eqb_neq. }
+  rewrite Hpub. cbn [andb].
+  assert (Hcs : S.charset_of (abs_doc2 e st' root) = Some 106).
+  { unfold S.charset_of. rewrite F1, F3, Hu8. destruct (e_version e) as [|v] eqn:V; reflexivity. }
+  rewrite Hcs, F4, F5, F6. subst root.
+  cbn [S.den_pis]. cbn [D1.den_items] in DN.
+  destruct (S.den_item _ 0 None (S.WItemElt sw wtag ws hc its) _) as [[e2 st2']|]; [|discriminate].
+  injection DN as DN _. rewrite app_nil_r in DN. subst e2. cbn [app]. now rewrite app_nil_r.
+Qed.
+
 Theorem abs_doc3_denotes TBL L o tag attrs ch st' root :
   let e := enc_env (to_blang L) o in
   plain_env e = true -> vals_ok L = true -> l_exts L = None ->
   tree_ok3 L 0 (NElt tag attrs ch) = true ->
   abs_node e None (NElt tag attrs ch) (start_state e [NElt tag attrs ch]) = Some ([root], st') ->
-  (forall x, In x (final_tbl e st') -> S.str_at (doc_strtbl e st') (s_off x) = Some (s_str x)) ->
+  (forall x, In x (final_tbl e st') -> okb (s_str x) = true -> S.str_at (doc_strtbl e st') (s_off x) = Some (s_str x)) ->
   (forall x, In x (final_tbl e st') -> S.u32_okb (s_off x) = true) ->
   (forall x, In x (final_tbl e st') -> ref_str (final_tbl e st') (s_off x) = s_str x) ->
   (forall x, In x (strtbl st') -> In x (final_tbl e st')) ->
@@ -559,33 +622,11 @@ Proof.
   destruct Hst0 as (Z2 & Z3).
   destruct (all_node_den3 L e HE HP HV HX Ho (final_tbl e st') (doc_strtbl e st') HRES HU32 HREF (NElt tag attrs ch) None 0 None _ [root] st'
                           (S.mk_dstate 0 0 None) HT HSUB (eq_sym Z2) (eq_sym Z3) AN) as (evs & dst' & DN & MG & _).
-  unfold S.denote_with.
-  assert (F : S.wd_ver (abs_doc2 e st' root) = u8 (e_version e) /\ S.wd_strtbl (abs_doc2 e st' root) = doc_strtbl e st' /\
-              S.wd_charset (abs_doc2 e st' root) = (if e_version e =? 0 then None else Some 106) /\
-              S.wd_root (abs_doc2 e st' root) = root /\ S.wd_pis_before (abs_doc2 e st' root) = [] /\ S.wd_pis_after (abs_doc2 e st' root) = [] /\
-              S.wd_pub (abs_doc2 e st' root) = (match header_pid e with Some _ => S.PubIdx (final_idx e st') | None => S.PubNum (header_public_id e) end)).
-  { unfold abs_doc2, final_idx. destruct (header_table e st') as [[i t] tl]. cbn. auto 10. }
-  destruct F as (F1 & F2 & F3 & F4 & F5 & F6 & F7). rewrite F1, F2, F7.
-  replace (e_version e) with (o_version o) in * by reflexivity.
-  assert (Hu8 : u8 (o_version o) = o_version o) by (unfold u8; apply N.mod_small; lia). rewrite Hu8.
-  replace (o_version o <? 4) with true by (symmetry; now apply N.ltb_lt).
-  rewrite Hb1. replace (S.u32_okb (Parser.blen (doc_strtbl e st'))) with true by (symmetry; unfold S.u32_okb; now apply N.ltb_lt).
-  assert (Hpub : match (match header_pid e with Some _ => S.PubIdx (final_idx e st') | None => S.PubNum (header_public_id e) end) with
-                 | S.PubNum n => S.u32_okb n && negb (n =? 0) | S.PubIdx i => S.u32_okb i end = true).
-  { destruct (header_pid e); [unfold S.u32_okb; now apply N.ltb_lt|]. unfold S.u32_okb. apply andb_true_iff. split; [now apply N.ltb_lt|].
-    apply negb_true_iff. now apply N.eqb_neq. }
-  rewrite Hpub. cbn [andb].
-  assert (Hcs : S.charset_of (abs_doc2 e st' root) = Some 106).
-  { unfold S.charset_of. rewrite F1, F3, Hu8. destruct (o_version o) as [|v] eqn:V; reflexivity. }
-  rewrite Hcs, F4, F5, F6.
   cbn [abs_node] in AN.
   destruct (abs_tag e _ tag _ _) as [[[sw wtag] st2]|]; [|discriminate].
   destruct (if has_attr_table e then abs_attrs e st2 attrs else Some ([], st2)) as [[ws st3]|]; [|discriminate].
   destruct (abs_seq (abs_node e) (Some tag) ch st3) as [[its st4]|]; [|discriminate]. injection AN as <- <-.
-  cbn [S.den_pis]. cbn [D1.den_items] in DN.
-  destruct (S.den_item _ 0 None (S.WItemElt sw wtag ws (nonempty ch) its) _) as [[e2 st2']|]; [|discriminate].
-  injection DN as DN _. rewrite app_nil_r in DN. subst e2.
-  eexists. split; [reflexivity|].
+  eexists. split; [exact (doc_wrap TBL L e _ _ _ _ _ _ evs dst' DN Hv Hp1 Hp0 Hb1 Hb2 Hidx)|].
   unfold doc_events3, norm. cbn [flat_map app]. rewrite !app_nil_r. cbn [merge_chars]. f_equal.
   apply merge_app_congr; [|reflexivity]. rewrite MG, Hk. cbn [flat_map]. now rewrite ?app_nil_r.
 Qed.
@@ -609,15 +650,16 @@ Proof.
   - destruct (e_use_strtbl e); rewrite !len_app, ?strtbl_construct_len; lia.
 Qed.
 
-Lemma final_facts tblb L o tag attrs ch body st' root :
-  let e := enc_env (to_blang L) o in
-  tree_ok3 L 0 (NElt tag attrs ch) = true ->
-  enc_body tblb (to_blang L) o [NElt tag attrs ch] = EOk (body, st') ->
-  abs_node e None (NElt tag attrs ch) (start_state e [NElt tag attrs ch]) = Some ([root], st') ->
+(* generic in what is known of the final state: its table holds octets < 256, and it is empty when no table is used *)
+Lemma final_facts_gen tblb l o roots body st' :
+  let e := enc_env l o in
+  enc_body tblb l o roots = EOk (body, st') ->
+  tbl_lt (strtbl st') = true ->
+  (e_use_strtbl e = false -> strtbl st' = [] /\ strtbl_len st' = 0) ->
   (match header_pid e with Some p => okb p = true | None => True end) ->
   (if e_use_strtbl e then tbl_size (final_tbl e st') < 4294967296
    else match header_pid e with Some p => len p + 1 < 4294967296 | None => True end) ->
-  (forall x, In x (final_tbl e st') -> S.str_at (doc_strtbl e st') (s_off x) = Some (s_str x)) /\
+  (forall x, In x (final_tbl e st') -> okb (s_str x) = true -> S.str_at (doc_strtbl e st') (s_off x) = Some (s_str x)) /\
   (forall x, In x (final_tbl e st') -> S.u32_okb (s_off x) = true) /\
   (forall x, In x (final_tbl e st') -> ref_str (final_tbl e st') (s_off x) = s_str x) /\
   (forall x, In x (strtbl st') -> In x (final_tbl e st')) /\
@@ -626,13 +668,12 @@ Lemma final_facts tblb L o tag attrs ch body st' root :
   (let '(_, t, _) := header_table e st' in tbl_size t < 4294967296) /\
   (match header_pid e with Some p => len p + 1 < 4294967296 | None => True end).
 Proof.
-  cbv zeta. intros HT EB AN Hpid Hsz. set (e := enc_env (to_blang L) o) in *.
+  cbv zeta. intros EB TOK NOTBL Hpid Hsz. set (e := enc_env l o) in *.
   destruct (e_use_strtbl e) eqn:HU.
   - (* string table in use *)
-    pose proof (abs_node_tok e L _ None 0 _ _ _ HT (start_state_ok e L _ 0 HT) AN) as TOK.
-    assert (GEN : forall idx t, (exists x, t = strtbl st' ++ x) -> tbl_ok t = true -> offsets_from 0 t ->
+    assert (GEN : forall idx t, (exists x, t = strtbl st' ++ x) -> tbl_lt t = true -> offsets_from 0 t ->
               tbl_size t < 4294967296 -> (idx = 0 \/ exists x, In x t /\ s_off x = idx) ->
-              (forall x, In x t -> S.str_at (strtbl_construct t) (s_off x) = Some (s_str x)) /\
+              (forall x, In x t -> okb (s_str x) = true -> S.str_at (strtbl_construct t) (s_off x) = Some (s_str x)) /\
               (forall x, In x t -> S.u32_okb (s_off x) = true) /\
               (forall x, In x t -> ref_str t (s_off x) = s_str x) /\
               (forall x, In x (strtbl st') -> In x t) /\
@@ -642,10 +683,10 @@ Proof.
       assert (U32 : forall x, In x (strtbl st' ++ y) -> S.u32_okb (s_off x) = true).
       { intros x Hin. unfold S.u32_okb. apply N.ltb_lt. pose proof (offsets_lt 0 _ x Hot Hin). lia. }
       split; [|split; [exact U32|split; [|split; [|split; [|split; [|split]]]]]].
-      - intros x Hin. apply entry_resolves; [exact Hot|exact Hin|]. unfold tbl_ok in Tok. rewrite forallb_forall in Tok. now apply Tok.
+      - intros x Hin Hok. now apply entry_resolves.
       - intros x Hin. exact (ref_str_resolves 0 _ x Hot Hin).
       - intros x Hin. apply in_or_app. now left.
-      - now apply construct_okb.
+      - now apply construct_lt.
       - change (Parser.blen (strtbl_construct (strtbl st' ++ y))) with (len (strtbl_construct (strtbl st' ++ y))).
         now rewrite strtbl_construct_len.
       - destruct Hidx as [->|(x & Hin & <-)]; [lia|]. specialize (U32 x Hin). unfold S.u32_okb in U32. now apply N.ltb_lt in U32.
@@ -655,20 +696,19 @@ Proof.
     + destruct (strtbl_add (strtbl st') (strtbl_len st') p) as [[idx t] tlen] eqn:A.
       destruct (strtbl_add_ok _ _ _ _ _ _ A) as (Hx & HI).
       assert (Hbnd : bnd st') by (destruct Hx as [x ->]; unfold bnd; rewrite tbl_size_app in Hsz; lia).
-      pose proof (enc_body_strtbl_exact tblb (to_blang L) o _ body st' EB Hbnd) as [Ho Hl].
+      pose proof (enc_body_strtbl_exact tblb l o _ body st' EB Hbnd) as [Ho Hl].
       destruct (HI (conj Ho Hl) Hsz) as [Hot _].
       destruct (strtbl_add_entry _ _ _ _ _ _ A) as (x0 & Hin0 & Hoff0 & Hstr0).
-      destruct (GEN idx t Hx (strtbl_add_tok _ _ _ _ _ _ TOK Hpid A) Hot Hsz (or_intror (ex_intro _ x0 (conj Hin0 Hoff0))))
+      destruct (GEN idx t Hx (strtbl_add_all _ _ _ _ _ _ _ TOK (okb_lt _ Hpid) A) Hot Hsz (or_intror (ex_intro _ x0 (conj Hin0 Hoff0))))
         as (G1 & G2 & G3 & G4 & G5 & G6 & G7 & G8).
       repeat split; try assumption.
       pose proof (entry_size t x0 Hin0) as Hes. rewrite Hstr0 in Hes. lia.
-    + pose proof (enc_body_strtbl_exact tblb (to_blang L) o _ body st' EB Hsz) as [Ho Hl].
+    + pose proof (enc_body_strtbl_exact tblb l o _ body st' EB Hsz) as [Ho Hl].
       destruct (GEN 0 (strtbl st') (ex_intro _ [] (eq_sym (app_nil_r _))) TOK Ho Hsz (or_introl eq_refl))
         as (G1 & G2 & G3 & G4 & G5 & G6 & G7 & G8).
       repeat split; try assumption.
   - (* no string table: the encoder's table stays empty *)
-    pose proof (abs_node_same e _ HU _ _ _ _ AN) as [S1 S2].
-    unfold start_state in S1, S2. rewrite HU in S1, S2. cbn in S1, S2.
+    destruct (NOTBL eq_refl) as [S1 S2].
     unfold final_tbl, final_idx, doc_strtbl in *. unfold header_table in *. rewrite HU in *.
     destruct (header_pid e) as [p|]; rewrite S1; cbn [tbl_size].
     + repeat split; try (intros x []); try lia; try exact Hsz.
@@ -676,6 +716,30 @@ Proof.
         unfold S.bytes_okb in Hp. now rewrite Hp.
       * change (Parser.blen (p ++ [0])) with (len (p ++ [0])). rewrite len_app. exact Hsz.
     + repeat split; try (intros x []); try lia; try reflexivity.
+Qed.
+
+Lemma final_facts tblb L o tag attrs ch body st' root :
+  let e := enc_env (to_blang L) o in
+  tree_ok3 L 0 (NElt tag attrs ch) = true ->
+  enc_body tblb (to_blang L) o [NElt tag attrs ch] = EOk (body, st') ->
+  abs_node e None (NElt tag attrs ch) (start_state e [NElt tag attrs ch]) = Some ([root], st') ->
+  (match header_pid e with Some p => okb p = true | None => True end) ->
+  (if e_use_strtbl e then tbl_size (final_tbl e st') < 4294967296
+   else match header_pid e with Some p => len p + 1 < 4294967296 | None => True end) ->
+  (forall x, In x (final_tbl e st') -> okb (s_str x) = true -> S.str_at (doc_strtbl e st') (s_off x) = Some (s_str x)) /\
+  (forall x, In x (final_tbl e st') -> S.u32_okb (s_off x) = true) /\
+  (forall x, In x (final_tbl e st') -> ref_str (final_tbl e st') (s_off x) = s_str x) /\
+  (forall x, In x (strtbl st') -> In x (final_tbl e st')) /\
+  S.bytes_okb (doc_strtbl e st') = true /\ Parser.blen (doc_strtbl e st') < 4294967296 /\
+  final_idx e st' < 4294967296 /\
+  (let '(_, t, _) := header_table e st' in tbl_size t < 4294967296) /\
+  (match header_pid e with Some p => len p + 1 < 4294967296 | None => True end).
+Proof.
+  cbv zeta. intros HT EB AN Hpid Hsz.
+  apply (final_facts_gen tblb (to_blang L) o _ body st' EB); [| |exact Hpid|exact Hsz].
+  - apply tbl_ok_lt. exact (abs_node_tok _ L _ None 0 _ _ _ HT (start_state_ok _ L _ 0 HT) AN).
+  - intros HU. pose proof (abs_node_same _ _ HU _ _ _ _ AN) as [S1 S2].
+    unfold start_state in S1, S2. rewrite HU in S1, S2. cbn in S1, S2. auto.
 Qed.
 
 (* ---- the whole statement, string table on or off ------------------------------------------------------------------------------------ *)
